@@ -45,6 +45,14 @@ for nm, keys in (("sin", ("$::sin", "$::sinf")), ("cos", ("$::cos", "$::cosf")),
         TRIG[k] = fsym(nm)
 
 
+def _sum_of_squares(v, names):
+    try:
+        p = S.to_poly(v)
+    except S.NotPolynomial:
+        return False
+    return bool(p) and set(p) == {(n, n) for n in names} and all(c > 0 for c in p.values())
+
+
 def angle(v):
     return ("adt", ANGLE, "Angle", [v])
 
@@ -53,10 +61,10 @@ def check_config(rep, prog):
     cfg = prog.config
     feats = prog.features
 
-    def run(path, args, env=None, models=None):
+    def run(path, args, env=None, models=None, oracle=None):
         mm = dict(TRIG)
         mm.update(models or {})
-        it = S.interp(prog, models=mm)
+        it = S.interp(prog, models=mm, oracle=oracle)
         try:
             return it, it.call_body(prog.body(path), args, env=env or {})
         except (A.Undecided, A.Panic, S.NotPolynomial) as e:
@@ -139,22 +147,74 @@ def check_config(rep, prog):
         want = [S.to_poly(mul(S.sym("r"), cos(S.sym("az")), cos(S.sym("alt")))), S.to_poly(mul(S.sym("r"), sin(S.sym("alt")))),
                 S.to_poly(mul(S.sym("r"), sin(S.sym("az")), cos(S.sym("alt"))))]
         req(got == want, "U4", "spherical-cart", prog.body(sc).where(), "spherical(r, az, alt).to_cart() = r (cos az cos alt, sin alt, sin az cos alt)")
+        import itertools
+        import math
+
+        def cart_rule(path, names, key, shape_ok, spec, what):
+            """Every outcome of the conversion (one per combination of comparisons the domain cannot decide)
+            has the specified closed form; an outcome of another form is tolerated only if it is reachable
+            by the zero vector alone, and is reported with a witness input when a non-zero vector reaches it
+            and the extracted formula gives another radius/angle there."""
+            b = prog.body(path)
+            outs = S.explore(lambda orc: run(path, [S.ref_to(S.vector(names))], oracle=orc))
+            mags = (1e-6, 1e-4, 1e-3, 0.5, 1.0, 100.0)
+            dirs = [d for d in itertools.product((-1.0, -0.5, 0.0, 0.5, 1.0), repeat=len(names)) if any(d)]
+            for trace, (it, r) in outs:
+                cs = S.components(it, r)
+                if shape_ok(cs):
+                    rep.inst("C18.U4", "%s [%s]: closed form holds" % (what, S.fmt_trace(trace)), config=cfg)
+                    continue
+                zero_only = all(any(op == "Eq" and ans and {repr(x), repr(y)} == {repr(S.sym(n)), repr(("f", 0.0))} for op, x, y, ans in trace) for n in names) \
+                    or any(op == "Eq" and ans and y == ("f", 0.0) and _sum_of_squares(x, names) for op, x, y, ans in trace)
+                if zero_only:
+                    rep.inst("C18.U4", "%s [%s]: other form, reachable by the zero vector only (outside the property)" % (what, S.fmt_trace(trace)), config=cfg)
+                    continue
+                witness = None
+                try:
+                    for m in mags:
+                        for d in dirs:
+                            n = math.sqrt(sum(c * c for c in d))
+                            pt = {nm: m * c / n for nm, c in zip(names, d)}
+                            if not S.trace_holds(trace, pt):
+                                continue
+                            got = [S.num_eval(c, pt) for c in cs]
+                            want = spec(pt)
+                            okr = len(got) == len(want) and abs(got[0] - want[0]) <= 1e-3 * abs(want[0]) + 1e-30
+                            oka = okr and all(abs(math.sin(g) - math.sin(w)) < 1e-3 and abs(math.cos(g) - math.cos(w)) < 1e-3 for g, w in zip(got[1:], want[1:]))
+                            if not oka:
+                                witness = (pt, got, want)
+                                break
+                        if witness:
+                            break
+                except S.NotNumeric as e:
+                    raise common.Infra("C18.U4: outcome of %s under [%s] has an unrecognised form and cannot be evaluated (%s)" % (path, S.fmt_trace(trace), e))
+                if witness is None:
+                    raise common.Infra("C18.U4: outcome of %s under [%s] has an unrecognised form and no witness refutes it; rule needs re-confirmation" % (path, S.fmt_trace(trace)))
+                rep.inst("C18.U4", "%s [%s]: FAILS at %s" % (what, S.fmt_trace(trace), witness[0]), config=cfg)
+                rep.violate("C18.U4", "U4|%s" % key, b.where(),
+                            "%s does not hold on the path taken when %s: for the non-zero vector %s the extracted formula gives (radius, angles) = %s, geometry says %s"
+                            % (what, S.fmt_trace(trace), {k: float("%.3g" % v) for k, v in witness[0].items()}, ["%.4g" % g for g in witness[1]], ["%.4g" % w for w in witness[2]]),
+                            config=cfg)
+
+        def polar_shape(cs):
+            return len(cs) == 2 and cs[1] == ("symop", "atan2", S.sym("y"), S.sym("x")) and isinstance(cs[0], tuple) and cs[0][0] == "symop" and cs[0][1] == "sqrt" \
+                and S.to_poly(cs[0][2]) == {("x", "x"): Fraction(1), ("y", "y"): Fraction(1)}
+
+        def sph_shape(cs):
+            ok = len(cs) == 3 and cs[1] == ("symop", "atan2", S.sym("z"), S.sym("x"))
+            if ok:
+                alt = cs[2]
+                ok = isinstance(alt, tuple) and alt[0] == "symop" and alt[1] == "atan2" and alt[2] == S.sym("y") and isinstance(alt[3], tuple) and alt[3][1] == "sqrt" \
+                    and S.to_poly(alt[3][2]) == {("x", "x"): Fraction(1), ("z", "z"): Fraction(1)}
+                ok = ok and isinstance(cs[0], tuple) and cs[0][1] == "sqrt" and S.to_poly(cs[0][2]) == {("x", "x"): Fraction(1), ("y", "y"): Fraction(1), ("z", "z"): Fraction(1)}
+            return ok
         tp = [p for p in prog.bodies if p.endswith("math::space::Real<2>>>::to_polar")][0]
-        it, r = run(tp, [S.ref_to(S.vector(["x", "y"]))])
-        cs = S.components(it, r)
-        ok = len(cs) == 2 and cs[1] == ("symop", "atan2", S.sym("y"), S.sym("x")) and isinstance(cs[0], tuple) and cs[0][0] == "symop" and cs[0][1] == "sqrt" \
-            and S.to_poly(cs[0][2]) == {("x", "x"): Fraction(1), ("y", "y"): Fraction(1)}
-        req(ok, "U4", "cart-polar", prog.body(tp).where(), "vec2(x, y).to_polar() = (sqrt(x^2 + y^2), atan2(y, x))")
+        cart_rule(tp, ["x", "y"], "cart-polar", polar_shape, lambda p: [math.hypot(p["x"], p["y"]), math.atan2(p["y"], p["x"])],
+                  "vec2(x, y).to_polar() = (sqrt(x^2 + y^2), atan2(y, x))")
         ts = [p for p in prog.bodies if p.endswith("math::space::Real<3>>>::to_spherical")][0]
-        it, r = run(ts, [S.ref_to(S.vector(["x", "y", "z"]))])
-        cs = S.components(it, r)
-        ok = len(cs) == 3 and cs[1] == ("symop", "atan2", S.sym("z"), S.sym("x"))
-        if ok:
-            alt = cs[2]
-            ok = isinstance(alt, tuple) and alt[0] == "symop" and alt[1] == "atan2" and alt[2] == S.sym("y") and isinstance(alt[3], tuple) and alt[3][1] == "sqrt" \
-                and S.to_poly(alt[3][2]) == {("x", "x"): Fraction(1), ("z", "z"): Fraction(1)}
-            ok = ok and isinstance(cs[0], tuple) and cs[0][1] == "sqrt" and S.to_poly(cs[0][2]) == {("x", "x"): Fraction(1), ("y", "y"): Fraction(1), ("z", "z"): Fraction(1)}
-        req(ok, "U4", "cart-spherical", prog.body(ts).where(), "vec3(x, y, z).to_spherical() = (len, atan2(z, x), atan2(y, sqrt(x^2 + z^2)))")
+        cart_rule(ts, ["x", "y", "z"], "cart-spherical", sph_shape,
+                  lambda p: [math.sqrt(p["x"] ** 2 + p["y"] ** 2 + p["z"] ** 2), math.atan2(p["z"], p["x"]), math.atan2(p["y"], math.hypot(p["x"], p["z"]))],
+                  "vec3(x, y, z).to_spherical() = (len, atan2(z, x), atan2(y, sqrt(x^2 + z^2)))")
         it, r = run(ANG + "Angle::sin_cos", [a])
         r = A.deref_all(it, r)
         ok = isinstance(r, tuple) and r[0] == "tuple" and r[1] == [sin(S.sym("a")), cos(S.sym("a"))]
